@@ -22,7 +22,7 @@ PROP = {
     "lean_modules": ["AxVerif.Model.Pool", "AxVerif.Lemmas.Pool", "AxVerif.Model.Fuzz", "AxVerif.Model.Bytes"],
     "rule": "pool: job sequences (blocking calls and FIFO bursts of ok / err / panicking jobs) on pools of 1-8 workers through the "
             "task runner of a real Database; non-trivial = a sequence with an err or panicking job or a burst longer than the pool. "
-            "fuzz: one self-contained sequence of 12-300 statements per case (one of 34 themes) on a fresh pre-populated database (1-3 tables of random "
+            "fuzz: one self-contained sequence of 12-300 statements per case (one of 35 themes) on a fresh pre-populated database (1-3 tables of random "
             "column types, pool size 1-3, autocommit or one session): strings (random characters, lossily decoded random bytes, token "
             "soups of the lexer's vocabulary, truncated and mutated valid statements, DDL, oversized literals, long garbage runs, nesting "
             "to depth 2000, 40-300 versions of one row, multi-row inserts, INSERT … SELECT with every mix of DISTINCT / WHERE / GROUP BY / self-join / ORDER BY / LIMIT / OFFSET over tables of several B+tree pages (60-160 short or wide rows, reading the target or its twin, autocommit and session), statements that fail on a late row) and "
